@@ -19,8 +19,6 @@ let model_build b =
   let c = rtcase_of b in
   let (rt, regs, ridmap) = Rt.build c false in
   if List.nth regs b.idx <> A "ok" then L [A "regpanic"]
-  else if List.exists (fun (_, v) -> List.exists (fun ch -> let x = int_of_n ch in x = 123 || x = 125) v) b.vals
-  then L [A "unsupported"]     (* brace values: the result depends on Go's map iteration order (K4) *)
   else begin
     (* the registered (normalised) path of route idx *)
     let rid = let rec find k = function [] -> failwith "c15: route not registered" | i :: r -> if i = b.idx then k else find (k + 1) r in find 0 ridmap in
